@@ -393,7 +393,7 @@ pub fn run(rep: &mut Report) {
             x ^= x << 5;
             (x >> 8) as u8
         };
-        let n_big = if thorough { 3 * 1024 * 1024 + 5 } else { 1024 * 1024 + 4097 };
+        let n_big = if thorough { 6 * 1024 * 1024 + 5 } else { 4 * 1024 * 1024 + 4097 };
         inputs.push(("pseudo-random".into(), (0..n_big).map(|_| rnd()).collect()));
         inputs.push(("zero-runs".into(), (0..n_big).map(|i| if (i / 5000) % 2 == 0 { 0 } else { rnd() }).collect()));
         if thorough {
@@ -405,11 +405,29 @@ pub fn run(rep: &mut Report) {
             Cfg::new(Algo::Roll, 64, 1024 * 1024 + 512 * 1024, 2 * 1024 * 1024, 20),
             Cfg::fixed(1024 * 1024 + 1),
         ];
+        // several chunks beyond the 1 MiB refill size in one stream (cut at max, 24 filter bits)
+        big_cfgs.push(Cfg::new(Algo::Roll, 64, 1024 * 1024 + 256 * 1024, 1024 * 1024 + 512 * 1024, 24));
+        big_cfgs.push(Cfg::new(Algo::Buz, 16, 1024 * 1024 + 1, 1024 * 1024 + 300 * 1024, 24));
+        // windows >= 21 with more than 16 filter bits: the high half of the digest takes part in the boundary test
+        big_cfgs.push(Cfg::new(Algo::Roll, 64, 1024, 1024 * 1024, 18));
+        big_cfgs.push(Cfg::new(Algo::Roll, 32, 64, 600 * 1024, 17));
+        big_cfgs.push(Cfg::new(Algo::Buz, 48, 2048, 1024 * 1024, 17));
+        big_cfgs.push(Cfg::new(Algo::Roll, 21, 0, 300 * 1024, 17));
         if thorough {
             big_cfgs.push(Cfg::new(Algo::Buz, 256, 0, 1024 * 1024 + 7, 24));
             big_cfgs.push(Cfg::new(Algo::Roll, 256, 300, 70000, 12));
+            big_cfgs.push(Cfg::new(Algo::Roll, 128, 4096, 2 * 1024 * 1024, 20));
+            big_cfgs.push(Cfg::new(Algo::Roll, 255, 16, 100_000, 19));
         }
-        let jobs: Vec<(usize, usize)> = (0..inputs.len()).flat_map(|i| (0..big_cfgs.len()).map(move |j| (i, j))).collect();
+        let mut jobs: Vec<(usize, usize)> = (0..inputs.len()).flat_map(|i| (0..big_cfgs.len()).map(move |j| (i, j))).collect();
+        // chunks of several MiB (the read buffer grows beyond one refill and a backlog of unscanned
+        // bytes can build up): one 11 MiB input for three configurations
+        let huge_idx = inputs.len();
+        inputs.push(("pseudo-random-11MiB".into(), (0..11 * 1024 * 1024 + 333).map(|_| rnd()).collect()));
+        for c in [Cfg::new(Algo::Roll, 64, 4096, 5 * 1024 * 1024, 21), Cfg::new(Algo::Buz, 16, 1, 4 * 1024 * 1024, 22), Cfg::fixed(3 * 1024 * 1024 + 1)] {
+            big_cfgs.push(c);
+            jobs.push((huge_idx, big_cfgs.len() - 1));
+        }
         let (inputs_ref, big_ref, jobs_ref) = (&inputs, &big_cfgs, &jobs);
         let b = par_shards(jobs.len(), threads, |k| {
             let (i, j) = jobs_ref[k];
@@ -422,6 +440,41 @@ pub fn run(rep: &mut Report) {
         });
         agg.merge(b);
         rep.agg.merge(agg);
+    }
+
+    // ---- leg A3: every window size 5..=64 (and 128, 255, 256) on 24 kB inputs, low and high filter bits
+    {
+        let mut ws: Vec<usize> = (5..=64).collect();
+        ws.extend([128, 255, 256]);
+        let mut x: u32 = 4242;
+        let mut rnd = move || {
+            x ^= x << 13;
+            x ^= x >> 17;
+            x ^= x << 5;
+            (x >> 8) as u8
+        };
+        let n = 24_000;
+        let inputs: Vec<Vec<u8>> = vec![(0..n).map(|_| rnd()).collect(), (0..n).map(|i| if (i / 700) % 3 == 0 { 0xff } else { rnd() }).collect()];
+        let (ws_ref, inputs_ref) = (&ws, &inputs);
+        let c = par_shards(ws.len(), threads, |wi| {
+            let w = ws_ref[wi];
+            let mut agg = Agg::default();
+            for algo in [Algo::Roll, Algo::Buz] {
+                for (min, max, bits) in [(0usize, 4096usize, 6u32), (w / 2, 3000, 9), (w + 1, 20_000, 12), (2 * w, 24_000, 16), (0, 24_000, 17)] {
+                    let cfg = Cfg::new(algo, w, min, max.max(w), bits);
+                    if !cfg.valid() {
+                        continue;
+                    }
+                    for inp in inputs_ref {
+                        agg.add("rule_cases", 1);
+                        agg.add("rule_window_sweep_cases", 1);
+                        check_rule(&cfg, &cfg.to_bitar(), inp, &mut agg);
+                    }
+                }
+            }
+            agg
+        });
+        rep.agg.merge(c);
     }
 
     // ---- leg B: read independence, explicit-state
@@ -453,13 +506,19 @@ pub fn run(rep: &mut Report) {
 
     // large input (crossing the 1 MiB refill buffer) under selected read sizes
     {
-        let n = 1024 * 1024 + 300;
+        let n = 3 * 1024 * 1024 + 700 * 1024 + 300;
         let data: Vec<u8> = (0..n).map(|i| ((i * 7 + i / 1000) % 251) as u8).collect();
-        let big = [Cfg::new(Algo::Roll, 64, 1024 * 1024 - 100, 1024 * 1024 + 200, 20), Cfg::fixed(1024 * 1024 - 1), Cfg::new(Algo::Buz, 16, 600 * 1024, 1024 * 1024 + 100, 20)];
+        let big = [
+            Cfg::new(Algo::Roll, 64, 1024 * 1024 - 100, 1024 * 1024 + 200, 20),
+            Cfg::fixed(1024 * 1024 - 1),
+            Cfg::new(Algo::Buz, 16, 600 * 1024, 1024 * 1024 + 100, 20),
+            Cfg::new(Algo::Roll, 64, 1024 * 1024 + 256 * 1024, 1024 * 1024 + 512 * 1024, 24),
+            Cfg::new(Algo::Buz, 32, 1024, 2 * 1024 * 1024 + 5, 24),
+        ];
         let (data_ref, big_ref) = (&data, &big);
         let b = par_shards(big.len(), threads, |i| {
             let sizes = move |rem: usize| {
-                let mut v = vec![rem, (1024 * 1024usize).min(rem), (1024 * 1024usize - 1).min(rem), (400 * 1024usize).min(rem)];
+                let mut v = vec![rem, (2 * 1024 * 1024usize + 1).min(rem), (1024 * 1024usize).min(rem), (1024 * 1024usize - 1).min(rem), (400 * 1024usize).min(rem)];
                 if thorough {
                     v.push((100 * 1024usize + 1).min(rem));
                 }
